@@ -773,8 +773,8 @@ def _copy_set(kind):
 
 add('Angle.set#copy', 'meth', 'set', 'mutator_capture', _copy_set('Angle'), 0.4, 30, 'Angle')
 add('Epoch.set#copy', 'meth', 'set', 'mutator_capture', _copy_set('Epoch'), 0.4, 120, 'Epoch')
-add('Interpolation.set#copy', 'meth', 'set', 'mutator_capture', _copy_set('Interpolation'), 0.4, 30, 'Interpolation')
-add('CurveFitting.set#copy', 'meth', 'set', 'mutator_capture', _copy_set('CurveFitting'), 0.3, 30, 'CurveFitting')
+add('Interpolation.set#copy', 'meth', 'set', 'mutator_capture', _copy_set('Interpolation'), 1.0, 30, 'Interpolation')
+add('CurveFitting.set#copy', 'meth', 'set', 'mutator_capture', _copy_set('CurveFitting'), 1.0, 30, 'CurveFitting')
 
 
 # ------------------------------------------------------------------ VSOP evaluators on caller-owned tables
